@@ -8,15 +8,18 @@
 (*                                                                         *)
 (* Pipeline:  a(x required)  <-  g:b(y default 5; input a by class)        *)
 (*            <-  c(inputs: a by name, g:b by class)   d(optional input a) *)
+(*            e(optional input a, then required input g:b)                 *)
 (* TLC enumerates which tasks are real, which are mocked, which parameters *)
 (* are supplied, and prints the expected outcome of every case.            *)
 (***************************************************************************)
 EXTENDS Naturals, Sequences, FiniteSets, TLC, Json
 
 CONSTANTS Emit
-Tasks == {"a", "b", "c", "d"}
-Deps  == [t \in Tasks |-> CASE t = "b" -> <<"a">> [] t = "c" -> <<"a", "b">> [] t = "d" -> <<"a">> [] OTHER -> <<>>]
-Optional == [t \in Tasks |-> t = "d"]          \* d's input is an InputTaskParameter with a default
+Tasks == {"a", "b", "c", "d", "e"}
+Deps  == [t \in Tasks |-> CASE t = "b" -> <<"a">> [] t = "c" -> <<"a", "b">> [] t = "d" -> <<"a">> [] t = "e" -> <<"a", "b">>
+                             [] OTHER -> <<>>]
+\* optional inputs (InputTaskParameter with a default): d's only input; e's FIRST input, declared in front of a required one
+OptIn == [t \in Tasks |-> IF t \in {"d", "e"} THEN {"a"} ELSE {}]
 Required == [t \in Tasks |-> IF t = "a" THEN {"x"} ELSE {}]
 Defaulted == [t \in Tasks |-> IF t = "b" THEN {"y"} ELSE {}]
 
@@ -26,7 +29,7 @@ Init == /\ real \in (SUBSET Tasks) \ {{}} /\ mocks \in SUBSET (Tasks \ real) /\ 
 Next == UNCHANGED vars
 
 Present == real \cup mocks
-MissingInput == \E t \in real : ~Optional[t] /\ \E i \in 1..Len(Deps[t]) : Deps[t][i] \notin Present
+MissingInput == \E t \in real : \E i \in 1..Len(Deps[t]) : Deps[t][i] \notin Present /\ Deps[t][i] \notin OptIn[t]
 MissingParam == \E t \in real : \E p \in Required[t] : p \notin given
 IsError == MissingInput \/ MissingParam
 
